@@ -152,6 +152,9 @@ def oracle_zero(case, lines, insts):
 
 
 def run_shard(campaign, shard, nshards, seed, tier):
+    if campaign == 'api':
+        import apiuse
+        return apiuse.run_api('C08', shard, nshards, seed, tier)
     part = Part()
     rng = random.Random('%s/%s/%s' % (seed, campaign, shard))
     quick = tier != 'thorough'
@@ -182,4 +185,6 @@ def run(ctx):
     run_sharded(ctx, 'C08', 'zero')
     ok = coqtables.check_stmin_table(ctx)
     ctx.exhaustive['all 137 valid STmin bytes in the pacing campaign; all 256 bytes in the decoding table'] = ok
-    return RULE, ASSUME
+    run_sharded(ctx, 'C08', 'api', nshards=2)
+    import apiuse
+    return RULE + apiuse.rule_text('C08'), ASSUME
